@@ -2,8 +2,8 @@ from vlib.core import *
 import struct
 
 META = dict(
-    level_text="Proved for ALL kernels (every eigen-solver / orthogonaliser that leaves the old columns alone / sort / correction function / dot / norm / comparison, every linear operator, any commutative ring, every initial space incl. non-orthonormal and dependent ones, every tol/maxit/sizes): the cached products stay A*basis through initialize/update/restart/extend and every stored residue is the true residual A x - theta x (c15_cached_products*, also for Mathlib Matrix.mulVec); info = Successful implies the convergence test was passed by the TRUE residuals of the first nev pairs the space holds at least nev pairs and compute returns nev (c15_successful, c15_successful_true_residuals); num_iterations < maxit, one Rayleigh-Ritz step per iteration, space size <= max at every step and at exit, exactly within [initial, max] for length-preserving kernels, max <= n, nev <= initial and initial + correction <= n from the translated constructor/initialize (c15_iterations*, c15_sizes*); values at exit ordered by the selection rule via the translated argsort over any ordered field (c15_order*); Gram matrix of Ritz vectors = Gram matrix of small eigenvectors when the basis is orthonormal, and orthonormal basis + orthonormal Ritz vectors at every exit for specification-conforming kernels and an orthonormal (e.g. default) initial space, with a counter-model for a non-orthonormal user space (c15_unit_orth*); the repaired DPR correction does not depend on the value of a division by zero (finite for every theta), equals the DPR quotient where theta != a_ii and is 0 elsewhere (c15_correction_defined); the extension step is extend_basis -> twice_is_enough_orthogonalisation -> 2 x (subspace_orthogonalisation; QR_orthogonalisation = Q factor of Eigen::HouseholderQR) and reaches no Gram-Schmidt / normalize() routine, read off the call footprint of Orthogonalization.h / SearchSpace.h regenerated on every run (c15_extension_uses_householder_qr); for an orthogonaliser meeting the Q-factor specification (appended block orthonormal in itself for EVERY input) every appended column has unit norm and is non-zero whatever the old columns are (c15_extension_block_orthonormal), with a counter-model where an orthogonaliser that leaves a zero column yields Successful with eigenvalue 0 and a zero eigenvector. Eigen's SelfAdjointEigenSolver and HouseholderQR enter by specification only; rounding and convergence are not proved (oracle with stated slack). OBJECT REUSE: for every state an earlier history of calls can have left in the object, maxit >= 1 and an initial space of at most max columns, compute_with_guess leaves exactly the object and the return value of the same call on a fresh solver (c15_recompute; the one exception, a failing first small eigenproblem, keeps only the old flags: c15_recompute_numerical_issue), so Successful means THIS call's test passed by the true residuals after any history (c15_successful_reused, c15_successful_true_residuals_reused); with maxit = 0 the previous call's pairs, flags and info() are handed out (c15_recompute_maxit0_stale, finding F21). OWNERSHIP / RESET FOOTPRINT, decided over the data members, aliases and flattened statement sequences of JDSymEigsBase / DavidsonSymEigsSolver / SearchSpace / RitzPairs regenerated from the AST on every run: the operator reference is the only non-owning member, no mutable / cache member, the initial space is copied into the owning basis, accessors return by value (c15_members_owning); compute_with_guess resets m_search_space and niter_ before the loop and nothing else, the first trip overwrites every member of RitzPairs and every break writes m_info (c15_compute_resets_partial). F11 (0/0 in the DPR correction) and F18 (sizes reset below nev) are repaired in /repo and covered by c15_correction_defined / c15_sizes / c15_successful; F16 (non-orthonormal user space), F19 (degenerate correction block), F20 (max < initial) and F21 (maxit = 0 / first-iteration restart on a used object see the previous call's Ritz pairs and status) remain known findings.",
-    note="Lean kernel + propext/Classical.choice/Quot.sound; translator xlate + clang-14 AST for Gen.JD / Gen.JDOrth (call footprint of Orthogonalization.h) / Gen.JDMembers (data members, aliases, statement sequences of compute / compute_with_guess / accessors) / Gen.Sort / Gen.Guard; Eigen SelfAdjointEigenSolver / HouseholderQR modelled by specification (their recorded outputs are replayed into the model and checked against the specification on every run); correspondence samples inputs",
+    level_text="Proved for ALL kernels (every eigen-solver / orthogonaliser that leaves the old columns alone / sort / correction function / dot / norm / comparison, every linear operator, any commutative ring, every initial space incl. non-orthonormal and dependent ones, every tol/maxit/sizes): the cached products stay A*basis through initialize/update/restart/extend and every stored residue is the true residual A x - theta x (c15_cached_products*, also for Mathlib Matrix.mulVec); info = Successful implies the convergence test was passed by the TRUE residuals of the first nev pairs the space holds at least nev pairs and compute returns nev (c15_successful, c15_successful_true_residuals); num_iterations < maxit, one Rayleigh-Ritz step per iteration, space size <= max at every step and at exit, exactly within [initial, max] for length-preserving kernels, max <= n, nev <= initial and initial + correction <= n from the translated constructor/initialize (c15_iterations*, c15_sizes*); values at exit ordered by the selection rule via the translated argsort over any ordered field (c15_order*); Gram matrix of Ritz vectors = Gram matrix of small eigenvectors when the basis is orthonormal, and orthonormal basis + orthonormal Ritz vectors at every exit for specification-conforming kernels and an orthonormal (e.g. default) initial space, with a counter-model for a non-orthonormal user space (c15_unit_orth*); the repaired DPR correction does not depend on the value of a division by zero (finite for every theta), equals the DPR quotient where theta != a_ii and is 0 elsewhere (c15_correction_defined); the extension step is extend_basis -> twice_is_enough_orthogonalisation -> 2 x (subspace_orthogonalisation; QR_orthogonalisation = Q factor of Eigen::HouseholderQR) and reaches no Gram-Schmidt / normalize() routine, read off the call footprint of Orthogonalization.h / SearchSpace.h regenerated on every run (c15_extension_uses_householder_qr); for an orthogonaliser meeting the Q-factor specification (appended block orthonormal in itself for EVERY input) every appended column has unit norm and is non-zero whatever the old columns are (c15_extension_block_orthonormal), with a counter-model where an orthogonaliser that leaves a zero column yields Successful with eigenvalue 0 and a zero eigenvector. Eigen's SelfAdjointEigenSolver and HouseholderQR enter by specification only; rounding and convergence are not proved (oracle with stated slack). OBJECT REUSE (code repaired by /repo 6587027): for EVERY state an earlier history of calls can have left in the object, every maxit (0 included), every initial space (also wider than max) and every outcome of the small eigenproblems, compute_with_guess leaves exactly the object and the return value of the same call on a fresh solver (c15_recompute, c15_recompute_accessors), so every theorem above holds for an object in any state and Successful means THIS call's test passed by the true residuals after any history (c15_successful_reused, c15_successful_true_residuals_reused); with maxit = 0 ANY object reports NotComputed, returns 0 and hands out no eigenvalue / eigenvector / flag (c15_maxit0_not_computed); info() after a call is never carried over: NotComputed iff maxit = 0 (c15_info_of_this_call). OWNERSHIP / RESET FOOTPRINT, decided over the data members, aliases and flattened statement sequences of JDSymEigsBase / DavidsonSymEigsSolver / SearchSpace / RitzPairs regenerated from the AST on every run: the operator reference is the only non-owning member, no mutable / cache member, the initial space is copied into the owning basis, accessors return by value (c15_members_owning); the statements of compute_with_guess before the loop are m_ritz_pairs = RitzPairs<Scalar>(); m_info = CompInfo::NotComputed; m_search_space.initialize_search_space(initial_space); niter_ = 0 - every result member of the object is reset, unconditionally, no other member is assigned, RitzPairs() is the defaulted constructor of a class without default member initialisers and without a declared assignment operator (empty arrays), initialize_search_space assigns every member of SearchSpace, inside the loop compute_eigen_pairs / check_convergence assign every member of RitzPairs and every break writes m_info (c15_compute_resets, the full clause). F11 (0/0 in the DPR correction), F18 (sizes reset below nev) and F21 / F21b / F21c (maxit = 0, a first-iteration restart or a throwing call on a used object saw the previous call's Ritz pairs and status) are repaired in /repo and covered by c15_correction_defined / c15_sizes / c15_successful / c15_compute_resets / c15_recompute; F16 (non-orthonormal user space), F19 (degenerate correction block) and F20 / F20c (max < initial, guess narrower than initial) remain known findings.",
+    note="Lean kernel + propext/Classical.choice/Quot.sound; translator xlate + clang-14 AST for Gen.JD / Gen.JDOrth (call footprint of Orthogonalization.h) / Gen.JDMembers (data members with their default initialisers, aliases, declared constructors / assignment operators, statement sequences of compute / compute_with_guess / accessors) / Gen.Sort / Gen.Guard; Eigen SelfAdjointEigenSolver / HouseholderQR modelled by specification (their recorded outputs are replayed into the model and checked against the specification on every run); correspondence samples inputs",
     technique="Lean 4 proof (induction on the loop, list/module algebra) on a kernel-generic model + source-translated size logic; differential correspondence (exact discrete fields, tolerance on numerics, replay of third-party kernels); long-double oracle on the implementation",
     design="§5 C15", harnesses=['c15'])
 
@@ -157,7 +157,7 @@ def run(tier, seed, replay=None):
         'Eigen::SelfAdjointEigenSolver and Eigen::HouseholderQR (inside twice_is_enough_orthogonalisation) are modelled by their specification (orthonormal eigen-decomposition of the small matrix; old columns untouched, new columns an orthonormal basis completing the same span, the appended block orthonormal in itself - unit-norm columns - for EVERY input as the leading columns of a Householder Q factor are); every recorded output is checked against that specification on the model side (spanok/blockok/eigok fields) and, for the appended block, also by the harness on every observed extension (oracle signature extension-block-not-orthonormal)',
         'exact arithmetic: theorems hold over a commutative ring / ordered field; rounding enters only through the stated oracle slack 64*eps*n*(||A||_F+1)*(||x||+1)',
         'harness compiled with -fno-sanitize=null in addition to the common flags: Eigen 3.4.0 forms &dst.coeffRef(0,0) of the empty n x 0 product that SearchSpace::restart + update_operator_basis_product evaluates (pointer never dereferenced)']
-    R.assumptions = ['the user operator is linear (x -> A x) and A is symmetric', 'the operator object (and the matrix behind it) outlives the solver and is not changed after construction', 'initial space has between corr and max columns; a call with maxit = 0 on a used object is outside the theorems (finding F21)']
+    R.assumptions = ['the user operator is linear (x -> A x) and A is symmetric', 'the operator object (and the matrix behind it) outlives the solver and is not changed after construction', 'initial space has between corr and max columns (a wider or narrower one can run into the assertions of findings F20 / F20c, on a fresh and on a used object alike)']
     if replay:
         exe, log = build_harness('c15', extra=XFLAGS)
         out = os.path.join(R.work, 'replay'); rc, hlog = run_harness(exe, out, seed, tier, ['--replay', replay])
@@ -173,12 +173,12 @@ def run(tier, seed, replay=None):
         R.cov['distinct_nontrivial'] = distinct_count(os.path.join(r['out'], 'requests.txt'))
         R.cov['rule'] = ('matrix classes {diagonally dominant, dense non-dominant, block-diagonal, one exactly decoupled coordinate with extreme diagonal, diagonal, clustered, exact Ritz block, graded} x '
                          '{DenseSymMatProd, SparseSymMatProd} x {LargestMagn, LargestAlge, SmallestMagn, SmallestAlge} x {default, orthonormal, non-orthonormal, dependent initial space} x '
-                         '{2-argument ctor, explicit init/max sizes incl. max < init + corr (forced restarts) and sizes reaching n}; n in 4..20 (quick) / 4..40 (thorough); fixed corpus of 4 regression inputs first; '
+                         '{2-argument ctor, explicit init/max sizes incl. max < init + corr (forced restarts) and sizes reaching n}; n in 4..20 (quick) / 4..40 (thorough); fixed corpus of 7 regression inputs first (incl. histories whose last / last-but-one call throws); '
                          'structured share (48 quick / 480 thorough, one period = {arrowhead, bordered diagonal with 1-3 hubs, twin = repeated diagonal entries with equal couplings, arrowhead block + dense block} x 4 rules x {positive definite, negative definite, indefinite}): '
                          'integer diagonal, couplings k/8, nev 2..4, so that the DPR corrections of the first expansions are exactly parallel / equal / rank deficient; default space or user space of signed (orthonormal), scaled (non-orthonormal) or repeated (dependent) coordinate vectors; '
                          'edge share (72 quick / 360 thorough, one period = 4 rules x nev in {1, n-1} x maxit in {0, 1, 100} x sizes {2-argument ctor, init = max = nev, init = nev and max = nev + corr}, n in 4..8 / 4..14); '
                          'EVERY case: its own call and 3 more calls (other rule / tol / maxit in {0,1,2,3,100}, compute <-> compute_with_guess, guess as owning matrix / block / outer-stride Map / const Ref / inner-stride Map with canaries, heap-allocated arguments overwritten and freed after the call) on ONE solver object, each compared bit for bit (accessors and all internal members) with a fresh object given the same call and judged by the predicate of that call; accessors re-queried 3 times in random orders; '
-                         'operator built on a block (upper triangle poisoned) / outer-stride Map / sparse Map / uncompressed sparse matrix compared bit for bit with the owning-matrix run; last call of each history (maxit in {0,1}) replayed in the model from the state the previous call left (recall requests); '
+                         'operator built on a block (upper triangle poisoned) / outer-stride Map / sparse Map / uncompressed sparse matrix compared bit for bit with the owning-matrix run; last call of each history (maxit in {0,1}) replayed in the model from the state the previous call left, also after a throwing call (recall requests: the answer of the model does not depend on that state, neither may the answer of the real object); '
                          'distinct request lines counted; per-iteration states obtained by re-running the real loop with maxit = 1, 2, ...')
         R.cov['exhaustive'] = False
     return R.finish()
